@@ -345,7 +345,7 @@ pub fn run_case(c: &CaseCfg, ops: &[String], out: &mut dyn Write, scratch: &Path
         if cmd != "failat" {
             mark(&format!("op {} {}", opi, cmd));
         }
-        if dead && !["ls", "cat", "reopen", "threads", "waitthreads", "fds", "waitfds", "sleep", "oldget", "oldset", "olddel", "oldmerge", "oldsync"].contains(&cmd) {
+        if dead && !["ls", "cat", "reopen", "threads", "waitthreads", "fds", "waitfds", "sleep", "oldget", "oldset", "olddel", "oldmerge", "oldsync", "nopoints", "parkpoint"].contains(&cmd) {
             writeln!(out, "abandoned").unwrap();
             continue;
         }
@@ -423,6 +423,34 @@ pub fn run_case(c: &CaseCfg, ops: &[String], out: &mut dyn Write, scratch: &Path
                         dead = true;
                         "panic".into()
                     }
+                }
+            }
+            "parkpoint" => {
+                // every thread that reaches <point> sleeps <ms> there
+                let point = it.next().unwrap().to_string();
+                let ms: u64 = it.next().unwrap().parse().unwrap();
+                bitcask::verif::set_point_callback(Some(std::sync::Arc::new(move |name: &'static str| {
+                    if name == point {
+                        std::thread::sleep(std::time::Duration::from_millis(ms));
+                    }
+                })));
+                "ok".into()
+            }
+            "nopoints" => {
+                bitcask::verif::set_point_callback(None);
+                "ok".into()
+            }
+            "bgmerge" => {
+                // a merge pass on another thread (through a clone of the handle); not awaited
+                match live.h.as_ref() {
+                    Some(h) => {
+                        let h = h.clone();
+                        std::thread::spawn(move || {
+                            let _ = std::panic::catch_unwind(std::panic::AssertUnwindSafe(|| h.verif_merge()));
+                        });
+                        "ok".into()
+                    }
+                    None => "nohandle".into(),
                 }
             }
             "drop" => {
